@@ -73,6 +73,9 @@ func itoa(n int) string {
 func genC05(t *rapid.T) *Case {
 	p := carrierProfile()
 	p.Attr = noisyAttr
+	p.EscapedText = true
+	p.Inline = append(append([]wc{}, p.Inline...), wc{"escaped", 4})
+	p.Core = append(append([]wc{}, p.Core...), wc{"pre", 6}, wc{"list", 6})
 	// more media so that all element kinds are retained often
 	p.Core = append(append([]wc{}, p.Core...), wc{"img", 5}, wc{"video", 5}, wc{"youtube", 3}, wc{"vimeo", 2}, wc{"tweet", 3}, wc{"tweetframe", 2}, wc{"picture", 3}, wc{"lazy", 2})
 	g := newG(t, p)
